@@ -279,6 +279,26 @@ func formatFloat(f float64, v Value) string {
 	return fmt.Sprintf("%v", v)
 }
 
+// fieldByName returns the field of the struct r with the given name, like
+// reflect.Value.FieldByName, except that a field promoted from an embedded
+// pointer that is nil is reported as missing instead of causing a panic.
+func fieldByName(r reflect.Value, name string) reflect.Value {
+	f, ok := r.Type().FieldByName(name)
+	if !ok {
+		return reflect.Value{}
+	}
+	for _, i := range f.Index {
+		if r.Kind() == reflect.Ptr {
+			if r.IsNil() {
+				return reflect.Value{}
+			}
+			r = r.Elem()
+		}
+		r = r.Field(i)
+	}
+	return r
+}
+
 // GetAttr attempts to access the given value and return the specified attribute.
 func GetAttr(v Value, attr Value, args ...Value) (Value, error) {
 	r := reflect.Indirect(reflect.ValueOf(v))
@@ -289,7 +309,7 @@ func GetAttr(v Value, attr Value, args ...Value) (Value, error) {
 	switch r.Kind() {
 	case reflect.Struct:
 		strval := CoerceString(attr)
-		retval = r.FieldByName(strval)
+		retval = fieldByName(r, strval)
 		if retval.IsValid() && !retval.CanInterface() {
 			return nil, fmt.Errorf("getattr: unable to access unexported field \"%s\" on \"%v\"", strval, v)
 		}
